@@ -149,11 +149,69 @@ def replay(w):
     return {'reproduced': False, 'signature': None, 'observed': {'unhandled_kind': kind}}
 
 
+def _ref_admm(S, lam, N, W, rho0, budget, tol, upd):
+    """ADMM for the block-Toeplitz graphical lasso written out from the paper (Hallac et al. 2017, eqs. 8-9
+    and Boyd's residual test with the library's documented constants): independent of the library's own
+    step functions, so a refactoring of their signatures cannot confuse the comparison."""
+    n = N * W
+    iu = np.triu_indices(n)
+    L = len(iu[0])
+
+    def inflate(v):
+        M = np.zeros((n, n))
+        M[iu] = v
+        return M + M.T - np.diag(np.diag(M))
+    # Toeplitz classes over the upper triangle: (block offset, row in block, column in block)
+    classes = {}
+    for k, (i, j) in enumerate(zip(*iu)):
+        classes.setdefault((j // N - i // N, i % N, j % N), []).append(k)
+    Lam = np.full((n, n), float(lam)) if np.isscalar(lam) else np.asarray(lam, float)
+    x = z = u = np.zeros(L)
+    rho = rho0
+    for k in range(budget):
+        zo = z
+        M = rho * inflate(z - u) - S
+        d, q = np.linalg.eigh(M)
+        t = (d + np.sqrt(d * d + 4.0 * rho)) / (2.0 * rho)
+        x = (q @ np.diag(t) @ q.T)[iu]
+        a = x + u
+        z = np.zeros(L)
+        for members in classes.values():
+            R_ = len(members)
+            Q = sum(Lam[iu[0][m], iu[1][m]] for m in members)
+            s_ = rho * sum(a[m] for m in members)
+            v = (s_ - Q) / (rho * R_) if s_ > Q else ((s_ + Q) / (rho * R_) if s_ < -Q else 0.0)
+            for m in members:
+                z[m] = v
+        u = u + x - z
+        if k > 0:
+            absolute = np.sqrt(L) * tol + 0.0001
+            tp = absolute + tol * max(np.linalg.norm(x), np.linalg.norm(z))
+            td = absolute + tol * np.linalg.norm(rho * u)
+            rp, rd = np.linalg.norm(x - z), np.linalg.norm(rho * (z - zo))
+            if rp <= tp and rd <= td:
+                break
+            if upd:
+                new = upd(rho, rp, tp, rd, td)
+                u = (rho / new) * u
+                rho = new
+    return x, k
+
+
 def _driver(nt, inp):
-    """Real driver vs. a reference driver built from the real step functions."""
+    """Real driver vs. an independent reference ADMM (see _ref_admm)."""
     from fast_ticc.admm import solver
     from fast_ticc import matrix_compression as mc
-    maxit, cb = int(nt.get('maxit', 2)), bool(nt.get('cb'))
+    maxit = int(nt.get('maxit', 2))
+    for cb in (bool(nt.get('cb')), not bool(nt.get('cb'))):
+        r = _driver_one(maxit, cb)
+        if r['reproduced']:
+            return r
+    return r
+
+
+def _driver_one(maxit, cb):
+    from fast_ticc.admm import solver
     # the witness's own budget at rho = 1, and long runs at larger rho where the *dual* residual is the
     # binding half of the stopping rule (the engine's counterexample is about what the stopping rule is
     # told, which tiny budgets cannot show on concrete data)
@@ -168,25 +226,10 @@ def _driver(nt, inp):
         upd = (lambda rho, rp, tp, rd, td: rho * 2.0 if rp > rd else rho / 2.0) if cb else None
         got = np.asarray(solver.run_admm_optimization(_args(N, W, lam, rho0, maxit=budget, rho_update=upd,
                                                             atol=tol, rtol=tol), S), float)
-        rho = rho0
-        x = z = u = np.zeros(L)
-        for k in range(budget):
-            zo = z
-            a = _args(N, W, lam, rho, atol=tol, rtol=tol)
-            x = solver.admm_update_x(a, u, z, S)
-            z = solver.admm_update_z(a, u, x)
-            u = solver.admm_update_u(u, x, z)
-            if k > 0:
-                stop, rp, tp, rd, td = solver.check_convergence(a, u, x, z, zo)
-                if stop:
-                    break
-                if upd:
-                    new = upd(rho, rp, tp, rd, td)
-                    u = (rho / new) * u
-                    rho = new
-        if got.shape != np.asarray(x).shape or not np.allclose(got, x, rtol=1e-10, atol=1e-12):
+        x, k = _ref_admm(S, lam, N, W, rho0, budget, tol, upd)
+        if got.shape != np.asarray(x).shape or not np.allclose(got, x, rtol=1e-7, atol=1e-9):
             return {'reproduced': True, 'signature': 'driver-differs-from-reference-iteration',
-                    'observed': {'N': N, 'W': W, 'rho': rho0, 'budget': budget, 'stopped_reference_at': k,
+                    'observed': {'N': N, 'W': W, 'rho': rho0, 'budget': budget, 'rho_callback': cb, 'stopped_reference_at': k,
                                  'max_abs_difference': float(np.max(np.abs(got - np.asarray(x)))) if got.shape == np.asarray(x).shape else None}}
     return {'reproduced': False, 'signature': None, 'observed': {}}
 
